@@ -28,6 +28,8 @@ func genPkgPool(t *rapid.T, allowInvalid bool) []PkgDesc {
 				d.ConfigRequired = true
 			case 5:
 				d.Scopes = []string{"Cluster"}
+			case 6:
+				d.OpenShiftRange = rapid.SampledFrom([]string{">=4.0.0", "<4.0.0", ">=4.20.0"}).Draw(t, "osrange")
 			}
 		}
 		// images of the same package name may carry different configuration schemas (extra property with a default) and
